@@ -2,11 +2,11 @@
    Only property theorems (closed by [exact]), non-vacuity examples and [Print Assumptions].
    Model: Model/StreamPool.v (labelled transition system; "all schedules" = all label lists);
    proofs: Proofs/StreamPoolProofs.v, StreamPoolIndex.v, StreamPoolSpec.v, StreamPoolHist.v, StreamPoolSnap.v,
-   StreamPoolFifo.v, StreamPoolFull.v. *)
+   StreamPoolFifo.v, StreamPoolFull.v; owner / close-hook layer: Model/StreamPoolHook.v, Proofs/StreamPoolHookProofs.v. *)
 From Coq Require Import List NArith Bool Sorted.
 Import ListNotations.
 From AnySync Require Import Model.StreamPool Proofs.StreamPoolProofs Proofs.StreamPoolIndex Proofs.StreamPoolSpec Proofs.StreamPoolHist
-  Proofs.StreamPoolSnap Proofs.StreamPoolFifo Proofs.StreamPoolFull.
+  Proofs.StreamPoolSnap Proofs.StreamPoolFifo Proofs.StreamPoolFull Model.StreamPoolHook Proofs.StreamPoolHookProofs.
 Open Scope N_scope.
 
 (* ---- bounded queues -------------------------------------------------------------------------------- *)
@@ -303,3 +303,119 @@ Example c19_spec_nonvacuous :
               HSend [(5, Some (1, [9], false)); (6, None)]] in
   spec_C19 ops (model_hist (mkConfig 1 2) ops) = true.
 Proof. vm_compute. reflexivity. Qed.
+
+(* ---- the stream-close hook and a pool owner with the lock order "owner mutex -> pool.mu" ------------------------
+   Model/StreamPoolHook.v: removeStream's critical section ([LRemove]) ends BEFORE the hook is called; the hook
+   ([HHook sid]) takes the owner's mutex and calls back into the pool; the owner holds its mutex across pool calls
+   ([HOwnerLock] .. pool labels .. [HOwnerUnlock]).  "All schedules" = all lists of [hlabel]. *)
+
+(* no pool label is ever disabled or changed by the owner's mutex or by parked hooks: a stream that ends while the owner is
+   inside its section delays nobody's Broadcast / SendById / Send / AddStream / tag change *)
+Theorem c19_hook_never_blocks_pool : forall hs l,
+  hstep hs (HL l) = mkH (step (h_pool hs) l) (h_owner hs) (h_done hs).
+Proof. exact hook_layer_never_blocks. Qed.
+Print Assumptions c19_hook_never_blocks_pool.
+
+(* the pool component of every schedule of the layered system is a schedule of the pool: every theorem above applies to it *)
+Theorem c19_hook_layer_projection : forall tr hs, h_pool (hrun hs tr) = run (h_pool hs) (pool_labels tr).
+Proof. exact hrun_pool. Qed.
+Print Assumptions c19_hook_layer_projection.
+
+Theorem c19_hook_layer_pool_reachable : forall c tr, reachable c (h_pool (hrun (hinit c) tr)).
+Proof. exact hook_layer_reachable_pool. Qed.
+
+(* in every schedule a stream's hook returns at most once, and what it reads from the pool through Streams(closedTags)
+   does not contain its own stream (the indexes were cleaned before the hook ran) *)
+Theorem c19_hook_once_and_clean : forall c tr,
+  NoDup (map fst (hrun_notes (hinit c) tr))
+  /\ forall nt, In nt (hrun_notes (hinit c) tr) -> ~ In (fst nt) (snd (snd nt)).
+Proof. exact hook_notes_all_schedules. Qed.
+Print Assumptions c19_hook_once_and_clean.
+
+(* a parked hook needs nothing but the owner's mutex: once that is free it returns in one step of its own *)
+Theorem c19_hook_progress : forall hs sid,
+  hook_pending hs sid = true -> h_owner hs = false ->
+  hook_pending (hstep hs (HHook sid)) sid = false
+  /\ snd (hstep_out hs (HHook sid)) = [hook_note (h_pool hs) sid]
+  /\ h_pool (hstep hs (HHook sid)) = h_pool hs.
+Proof. exact hook_runs_when_owner_free. Qed.
+Print Assumptions c19_hook_progress.
+
+(* no deadlock between the owner and the closing goroutines: from EVERY state — whatever ended and whatever the owner did
+   inside its section — "the owner unlocks, every hook gets its turn" leaves no hook pending *)
+Theorem c19_hooks_drain : forall hs ids,
+  (forall x, hook_pending hs x = true -> In x ids) ->
+  forall x, hook_pending (hrun hs (HOwnerUnlock :: map HHook ids)) x = false.
+Proof. exact hooks_drain. Qed.
+Print Assumptions c19_hooks_drain.
+
+(* FULL model-satisfies-spec for the owner layer: for every configuration and every list of pool / owner-lock / owner-unlock
+   operations the model's history satisfies spec_C19 on the pool observations AND the hook clauses (a hook returns only
+   after it was invoked, once, never while the owner holds its mutex, always once the mutex is free; its view of the pool
+   names no stream whose removal was announced) *)
+Theorem c19_model_satisfies_spec_hook : forall c ops, spec_C19_hook ops (model_hist2 c ops) = true.
+Proof. exact model_hist2_spec_ok. Qed.
+Print Assumptions c19_model_satisfies_spec_hook.
+
+Theorem c19_spec_hook_implies_pool_spec : forall ops observed,
+  spec_C19_hook ops observed = true -> spec_C19 (map base_of ops) (map o2_base observed) = true.
+Proof. exact spec_hook_implies_base. Qed.
+
+Theorem c19_hook_history_states_reachable : forall hs i o, fst (run_op2 hs i o) = hrun hs (expand2 hs i o).
+Proof. exact run_op2_state. Qed.
+
+(* the design the hook contract excludes — removeStream calls the hook before it releases pool.mu ([hstep_ul]): from the
+   moment one hook is pending, under EVERY schedule, no hook ever returns, the indexes never change, and every label that
+   needs pool.mu stays disabled: the end of ONE stream freezes the whole pool *)
+Theorem c19_hook_under_pool_lock_freezes : forall tr hs, hinv hs -> pool_mu_held hs = true ->
+  pool_mu_held (hrun_ul hs tr) = true /\ h_done (hrun_ul hs tr) = h_done hs
+  /\ pool_ids (h_pool (hrun_ul hs tr)) = pool_ids (h_pool hs)
+  /\ by_peer (h_pool (hrun_ul hs tr)) = by_peer (h_pool hs)
+  /\ by_tag (h_pool (hrun_ul hs tr)) = by_tag (h_pool hs)
+  /\ forall l, needs_pool_mu l = true -> hstep_ul (hrun_ul hs tr) (HL l) = hrun_ul hs tr.
+Proof. exact ul_frozen. Qed.
+Print Assumptions c19_hook_under_pool_lock_freezes.
+
+Theorem c19_hook_layer_states_invariant : forall c tr, hinv (hrun (hinit c) tr).
+Proof. exact reachable_hinv. Qed.
+
+(* the same schedule in both designs: stream 1 ends while the owner is inside its section; the owner broadcasts, leaves the
+   section, the hook gets its turn.  Contract design: stream 2 gets message 5, the hook returns having seen stream 2 only.
+   Hook-under-lock design: nothing is delivered, the hook never returns, pool.mu stays held. *)
+Example c19_hook_designs_nonvacuous :
+  let pre := [HL (LAddStream 1 1 [7] false); HL (LAddStream 2 1 [7] false); HOwnerLock;
+              HL (LReadErr 1); HL (LCloseQueue 1); HL (LTake 1); HL (LRemove 1)] in
+  let post := [HL (LBroadcast 0 5 [7]); HL (LWrite 0); HL (LTake 2); HOwnerUnlock; HHook 1] in
+  let s0 := hrun (hinit (mkConfig 1 1)) pre in
+  pool_mu_held s0 = true
+  /\ option_map st_accepted (hget 2 (objs (h_pool (hrun s0 post)))) = Some [5]
+  /\ hrun_notes s0 post = [(1, ([7], [2]))]
+  /\ hook_pending (hrun s0 post) 1 = false
+  /\ option_map st_accepted (hget 2 (objs (h_pool (hrun_ul s0 post)))) = Some []
+  /\ hook_pending (hrun_ul s0 post) 1 = true.
+Proof. vm_compute. repeat split. Qed.
+
+(* the hook clauses reject what they should: a hook whose view contains its own stream, a hook that returns while the owner
+   holds its mutex, a hook that stays parked although the mutex is free, a lost hook, a hook that returns twice, a hook
+   that returns without having been invoked *)
+Example c19_hook_clauses_nonvacuous :
+  let b := fun rem => mkObs 0 [] [] [] [] rem (mkSnap [] [] []) true in
+  hook_ok [] [] false (mkObs2 (b [(1, [7])]) [(1, ([7], [2]))] []) = true
+  /\ hook_ok [] [] true (mkObs2 (b [(1, [7])]) [] [1]) = true
+  /\ hook_ok [] [] false (mkObs2 (b [(1, [7])]) [(1, ([7], [1; 2]))] []) = false
+  /\ hook_ok [] [] true (mkObs2 (b [(1, [7])]) [(1, ([7], []))] []) = false
+  /\ hook_ok [] [] false (mkObs2 (b [(1, [7])]) [] [1]) = false
+  /\ hook_ok [] [] false (mkObs2 (b [(1, [7])]) [] []) = false
+  /\ hook_ok [1] [1] false (mkObs2 (b []) [(1, ([7], [2])); (1, ([7], [2]))] []) = false
+  /\ hook_ok [] [1] false (mkObs2 (b []) [(1, ([7], []))] []) = false.
+Proof. vm_compute. repeat split. Qed.
+
+Example c19_spec_hook_nonvacuous :
+  let ops := [H2 (HAddStream 1 1 [7] false); H2 (HAddStream 2 1 [7; 8] false); H2 (HAddStream 3 2 [8] true); H2Lock;
+              H2 (HReadErr 1); H2 (HRemoveTags 2 [8] true); H2 (HBroadcast [7]); H2 (HRelease 2 false); H2 (HReadErr 3);
+              H2 (HCloseRelease 3); H2 (HStreams [7; 8]); H2Unlock; H2 (HAddStream 1 1 [7] false); H2 (HReadErr 4)] in
+  spec_C19_hook ops (model_hist2 (mkConfig 1 2) ops) = true
+  /\ map (fun o => (map fst (o2_notes o), o2_pending o)) (model_hist2 (mkConfig 1 2) ops) =
+     [([], []); ([], []); ([], []); ([], []); ([], [1]); ([], [1]); ([], [1]); ([], [1; 2]); ([], [1; 2]);
+      ([], [1; 2; 3]); ([], [1; 2; 3]); ([1; 2; 3], []); ([], []); ([4], [])].
+Proof. vm_compute. split; reflexivity. Qed.
